@@ -144,6 +144,17 @@ theorem pipeline_order (s : Spec) (lo hi : Rat) (ranges : List (Rat × Rat)) (k 
   simp only [Spec.pipeline, Spec.inRange, Spec.excludeRange, Spec.downsampledBy, h1, e1, hk]
   trivial
 
+/-- non-vacuity of `pipeline_order` (equal lengths), and the three stages on a seven-bin spectrum:
+    in_range (1,6], exclude [3,4), blocks of two -/
+example : (mkSpec [0, 1, 2, 3, 4, 5, 6] [10, 11, 12, 13, 14, 15, 16] 1).freq.length
+    = (mkSpec [0, 1, 2, 3, 4, 5, 6] [10, 11, 12, 13, 14, 15, 16] 1).power.length := by decide
+example : ((mkSpec [0, 1, 2, 3, 4, 5, 6] [10, 11, 12, 13, 14, 15, 16] 1).inRange 1 6).freq = [2, 3, 4, 5, 6] := by
+  decide +kernel
+example : (((mkSpec [0, 1, 2, 3, 4, 5, 6] [10, 11, 12, 13, 14, 15, 16] 1).inRange 1 6).excludeRange [(3, 4)]).power
+    = [12, 14, 15, 16] := by decide +kernel
+example : ((mkSpec [0, 1, 2, 3, 4, 5, 6] [10, 11, 12, 13, 14, 15, 16] 1).pipeline 1 6 [(3, 4)] 2).nppb = 2 := by
+  decide +kernel
+
 /-! ## `identify_peaks` -/
 
 section peaks
@@ -324,6 +335,10 @@ theorem frequency_axis (fs : ℝ) (hfs : fs ≠ 0) (npw : Nat) :
   · field_simp
 
 example : (psdFreq (10 : ℝ) 4).length = 3 := by simp [psdFreq, rfftfreq]
+example : psdFreq (10 : ℝ) 4 = [0, 5 / 2, 5] := by
+  rw [frequency_axis 10 (by norm_num) 4]
+  simp [List.range_succ]
+  norm_num
 
 /-- the spectrum has as many power bins as frequency bins: `⌊N_w/2⌋ + 1` -/
 theorem psd_lengths (fs : ℝ) (x : List ℝ) (npw : Nat) :
@@ -398,6 +413,71 @@ theorem psd_bin0 (fs : ℝ) (x : List ℝ) (hx : x ≠ []) : (psdPower x fs x.le
   unfold rfftSq
   rw [hdl, getD_map_range _ _ _ _ (by omega), dftSq_demean_zero]
   simp
+
+/-- **parseval_one_sided** (ext).  Without windowing the one-sided spectrum integrates to the variance of the
+    signal (`variance` = `np.var`, the population variance, defined without reference to the model), the
+    Nyquist bin of an even-length signal being counted once (half of its doubled weight):
+    `var x = Δf · (Σ_{0<k<N/2} P_k + ½·[N even]·P_{N/2})` with `Δf = fs/N`; bin 0 is empty (`psd_bin0`).
+    Proof: Plancherel for the model's cos/sin DFT (orthogonality of the roots of unity), conjugate symmetry
+    `|X_{N-k}|² = |X_k|²`, folding of the full period onto the lower half. -/
+theorem parseval_one_sided (fs : ℝ) (hfs : fs ≠ 0) (x : List ℝ) (hx : x ≠ []) :
+    variance x = fs / (x.length : ℝ) *
+      (∑ k ∈ Finset.range ((x.length - 1) / 2), (psdPower x fs x.length).getD (k + 1) 0
+        + if x.length % 2 = 0 then (psdPower x fs x.length).getD (x.length / 2) 0 / 2 else 0) := by
+  have hn : 0 < x.length := List.length_pos_iff.mpr hx
+  have hN : (x.length : ℝ) ≠ 0 := by
+    have : x.length ≠ 0 := by omega
+    exact_mod_cast this
+  have hdl : (demean x).length = x.length := by simp [demean]
+  have hsym : ∀ k, 0 < k → k < x.length → dftSq (demean x) (x.length - k) = dftSq (demean x) k := by
+    intro k _ hk
+    have := dftSq_reflect (demean x) k (by omega)
+    rwa [hdl] at this
+  have hS0 := dftSq_demean_zero x
+  have htot := total_power x
+  have hbins : ∀ k ∈ Finset.range ((x.length - 1) / 2),
+      (psdPower x fs x.length).getD (k + 1) 0 = scaling fs x.length * dftSq (demean x) (k + 1) := by
+    intro k hk
+    have := Finset.mem_range.mp hk
+    exact psdPower_unwindowed fs x hx (k + 1) (by omega)
+  rw [Finset.sum_congr rfl hbins, ← Finset.mul_sum]
+  have hsc : scaling fs x.length = 2 / fs / (x.length : ℝ) := by
+    unfold scaling; rw [ofNat'_real, two_lit]
+  rcases Nat.even_or_odd' x.length with ⟨h, hh | hh⟩
+  · -- even length: N = 2h, h ≥ 1
+    obtain ⟨h', rfl⟩ : ∃ h', h = h' + 1 := ⟨h - 1, by omega⟩
+    have hN2 : x.length = 2 * h' + 2 := by omega
+    have hfold := fold_even (fun k => dftSq (demean x) k) h' (by
+      intro k hk1 hk2
+      have := hsym k hk1 (by omega)
+      rwa [hN2] at this)
+    rw [← hN2, htot, hS0] at hfold
+    have e1 : (x.length - 1) / 2 = h' := by omega
+    have e2 : x.length % 2 = 0 := by omega
+    have e3 : x.length / 2 = h' + 1 := by omega
+    rw [e1, if_pos e2, e3, psdPower_unwindowed fs x hx (h' + 1) (by omega), hsc]
+    field_simp
+    linarith
+  · -- odd length: N = 2h + 1
+    have hfold := fold_odd (fun k => dftSq (demean x) k) h (by
+      intro k hk1 hk2
+      have := hsym k hk1 (by omega)
+      rwa [hh] at this)
+    rw [← hh, htot, hS0] at hfold
+    have e1 : (x.length - 1) / 2 = h := by omega
+    have e2 : ¬ x.length % 2 = 0 := by omega
+    rw [e1, if_neg e2, hsc]
+    field_simp
+    linarith
+
+
+/-- non-vacuity: a two-point signal with unit sample rate; its variance is 1/4 -/
+example : variance [0, 1] = 1 / 4 := by
+  unfold variance; norm_num
+
+/-- non-vacuity of `bin_width`: 3 windows of 8 points at 10 Hz, blocks of 2 -/
+example : ({ mkSpec [] [] 3 with sampleRate := 10, totalSampledUsed := 24 } : Spec).binWidth = 5 / 4 := by
+  decide +kernel
 
 end psd
 
